@@ -158,7 +158,51 @@ def check_envelope_membership(ctx, prog, ep, root, rule="c11.scope"):
 
     member = None
     pool = []
+    helper_set = None
     if tenv_node[0] == "call" and short_callee(tenv_node[1]) == "contains" and tenv_node[2]:
+        r0 = strip(tenv_node[2][0])
+        while r0[0] == "call" and short_callee(r0[1]) in ("deref", "as_ref", "borrow", "as_slice") and r0[2]:
+            r0 = strip(r0[2][0])
+        if r0[0] == "call" and short_callee(r0[1]) != "collect":
+            ids_ = [i_ for i_ in prog.callee_index().get(r0[1], ()) if prog.fns[i_].root == i_ and not prog.fns[i_].raw.get("pub")]
+            if len(ids_) == 1 and prog.fns[ids_[0]].body.loops():
+                helper_set = (prog.fns[ids_[0]], r0)
+    if helper_set is not None:
+        # form C: the set is filled by a loop over the walls in a private helper (`for wall in &model.walls { .. if is_tenv { ids.push(wall.id) } }`):
+        # a wall is a member when the walk from the top of the loop body reaches the push under the assignment
+        from ..loops import classify_loops
+        from ..cfgq import norm_for_elem
+        hfn, hcall = helper_set
+        hsc = Scope(prog, hfn, argmap={i_ + 1: a_ for i_, a_ in enumerate(hcall[2])})
+        loops_ = [l_ for l_ in classify_loops(prog, hfn) if l_["kind"] == "iterator" and (l_.get("source") or "").endswith("walls")]
+        ctx.require(len(loops_) == 1, "%s: one loop over the model's walls expected" % hfn.path.split("::")[-1])
+        lp = loops_[0]
+        pushes = []
+        for b_ in sorted(lp["blocks"]):
+            t_ = hfn.body.blocks[b_]["term"]
+            if t_["t"] == "call" and short_callee(callee_name(t_) or "") in ("push", "insert") and len(t_["args"]) == 2:
+                val_ = norm_for_elem(strip(hsc.operand(t_["args"][1])))
+                if (leaf_name(val_) or "").endswith("walls[].id"):
+                    pushes.append(b_)
+        ctx.require(len(pushes) == 1, "%s: one `push(wall.id)` inside the loop expected, found %d" % (hfn.path.split("::")[-1], len(pushes)))
+        # top of the loop body: the Some arm of the switch on next()
+        start_ = None
+        for b_ in sorted(lp["blocks"]):
+            t_ = hfn.body.blocks[b_]["term"]
+            if t_["t"] == "call" and short_callee(callee_name(t_) or "") == "next" and t_.get("to") is not None:
+                sw = hfn.body.blocks[t_["to"]]["term"]
+                if sw["t"] == "switch":
+                    inside = [tg for v_, tg in sw["arms"] if tg in lp["blocks"]] + ([sw["else"]] if sw["else"] in lp["blocks"] else [])
+                    start_ = inside[0] if inside else None
+        ctx.require(start_ is not None, "%s: loop body not found" % hfn.path.split("::")[-1])
+        pool = [hsc]
+
+        def member(at):
+            r = TB.walk_decision(hsc, start_, at, {pushes[0], lp["header"]})
+            if isinstance(r, tuple):
+                raise AnalysisError("envelope membership: cannot evaluate %s in %s" % (show(r[1])[:100], hfn.path.split("::")[-1]))
+            return r == pushes[0]
+    elif tenv_node[0] == "call" and short_callee(tenv_node[1]) == "contains" and tenv_node[2]:
         # form A: a set of wall ids built by a filter chain over model.walls
         recv = strip(tenv_node[2][0])
         ctx.require(recv[0] == "call" and short_callee(recv[1]) == "collect" and (iter_chain(recv).source_name() or "") == "model.walls" and
